@@ -85,6 +85,7 @@ class Model:
         self.mats = {}  # count -> array
         self.consts = {}  # Constant -> value
         self._form_cache = {}
+        self._stack = set()
 
     # ------------------------------------------------------------------ creation of model objects
     def _fields_of(self, t):
@@ -231,6 +232,25 @@ class Model:
         from ufl.adjoint import Adjoint
         from ufl.argument import Argument, Coargument
         from ufl.coefficient import Coefficient, Cofunction
+        from ufl.form import Form, FormSum, ZeroBaseForm
+        from ufl.matrix import Matrix
+
+        t = type(o)
+        if t in (FormSum, Action, Adjoint):
+            if id(o) in self._stack:
+                raise Inconsistent(f"the {t.__name__} object contains itself as an operand (cyclic structure)")
+            self._stack.add(id(o))
+            try:
+                return self._assemble(o, ov)
+            finally:
+                self._stack.discard(id(o))
+        return self._assemble(o, ov)
+
+    def _assemble(self, o, ov):
+        from ufl.action import Action
+        from ufl.adjoint import Adjoint
+        from ufl.argument import Coargument
+        from ufl.coefficient import Cofunction
         from ufl.form import Form, FormSum, ZeroBaseForm
         from ufl.matrix import Matrix
 
